@@ -22,6 +22,7 @@ import (
 	"time"
 
 	"github.com/pingcap/kvproto/pkg/pdpb"
+	"github.com/tikv/pd/pkg/typeutil"
 	"github.com/tikv/pd/server/config"
 	"github.com/tikv/pd/server/tso"
 	"github.com/tikv/pd/tests"
@@ -36,8 +37,17 @@ type XReq struct {
 	N  uint32 `json:"n"`
 }
 
+// XJump: the local allocator of a dc-location jumps ahead (the clock of the member serving it is ahead) while the
+// members refuse to move a TSO by GapMs or more at once (max-gap-reset-ts); GapMs = 0 restores the default.
+type XJump struct {
+	DC      int `json:"dc"`
+	AheadMs int `json:"ahead_ms"`
+	GapMs   int `json:"gap_ms"`
+}
+
 type XStep struct {
-	Par []XReq `json:"par"`
+	Par  []XReq `json:"par,omitempty"`
+	Jump *XJump `json:"jump,omitempty"`
 }
 
 type XCase struct {
@@ -109,6 +119,31 @@ func genCross(t *rapid.T) XCase {
 			st.Par = append(st.Par, r)
 		}
 		c.Steps = append(c.Steps, st)
+	}
+	// a few times: dc-X jumps ahead by d with max-gap-reset-ts g (d around and above g), a local request of dc-X,
+	// global requests (they fail while the collected maximum cannot be written back), then g is restored
+	njump := rapid.IntRange(2, 3).Draw(t, "njump")
+	if thorough {
+		njump = rapid.IntRange(3, 6).Draw(t, "njump_t")
+	}
+	for j := 0; j < njump; j++ {
+		d, g := 1500, 1000
+		if j > 0 {
+			d = rapid.SampledFrom([]int{300, 900, 1100, 1500, 2500}).Draw(t, "ahead")
+			g = rapid.SampledFrom([]int{1000, 2000}).Draw(t, "gap")
+		}
+		dcx := rapid.IntRange(0, ndc-1).Draw(t, "jdc")
+		pat := []XStep{{Jump: &XJump{DC: dcx, AheadMs: d, GapMs: g}},
+			{Par: []XReq{{DC: dcx, N: uint32(rapid.IntRange(1, 3).Draw(t, "jn"))}}}}
+		for k, ng := 0, rapid.IntRange(1, 3).Draw(t, "jglobals"); k < ng; k++ {
+			pat = append(pat, XStep{Par: []XReq{{DC: -1, N: uint32(rapid.SampledFrom([]int{1, 1, 5}).Draw(t, "jgn"))}}})
+			if rapid.Bool().Draw(t, "jlocal") {
+				pat = append(pat, XStep{Par: []XReq{{DC: rapid.IntRange(0, ndc-1).Draw(t, "jldc"), N: 1}}})
+			}
+		}
+		pat = append(pat, XStep{Jump: &XJump{GapMs: 0}}, XStep{Par: []XReq{{DC: -1, N: 1}}})
+		at := rapid.IntRange(0, len(c.Steps)).Draw(t, "jat")
+		c.Steps = append(c.Steps[:at], append(pat, c.Steps[at:]...)...)
 	}
 	if thorough && len(c.PDs) >= 2 && rapid.Bool().Draw(t, "resign") {
 		c.ResignAt = rapid.IntRange(nsteps/4, 3*nsteps/4).Draw(t, "resign_at")
@@ -288,6 +323,51 @@ func (x *xcluster) target(dc string) string {
 		return ""
 	}
 	return x.cluster.GetServer(name).GetAddr()
+}
+
+// setGap sets max-gap-reset-ts on every member (0 = the default of 24h).
+func (x *xcluster) setGap(ms int) {
+	d := 24 * time.Hour
+	if ms > 0 {
+		d = time.Duration(ms) * time.Millisecond
+	}
+	for _, s := range x.cluster.GetServers() {
+		opts := s.GetPersistOptions()
+		cfg := opts.GetPDServerConfig().Clone()
+		cfg.MaxResetTSGap = typeutil.NewDuration(d)
+		opts.SetPDServerConfig(cfg)
+	}
+}
+
+// jump moves the TSO of dc's local allocator AheadMs ahead of where it is (as a fast clock on its member would)
+// and then sets max-gap-reset-ts. Returns 1 if the allocator moved.
+func (x *xcluster) jump(dcs []string, j *XJump) int {
+	moved := 0
+	if j.AheadMs > 0 {
+		x.setGap(0)
+		dc := dcs[j.DC%len(dcs)]
+		if leader := x.cluster.GetLeader(); leader != "" {
+			name := x.cluster.GetServer(leader).GetAllocatorLeader(dc).GetName()
+			if srv := x.cluster.GetServer(name); name != "" && srv != nil {
+				if al, err := srv.GetTSOAllocatorManager().GetAllocator(dc); err == nil {
+					if la, ok := al.(*tso.LocalTSOAllocator); ok {
+						if cur, err := la.GetCurrentTSO(); err == nil {
+							now := time.Now().UnixNano() / int64(time.Millisecond)
+							base := cur.GetPhysical()
+							if now > base {
+								base = now
+							}
+							if la.SetTSO(compose(base+int64(j.AheadMs), 0)) == nil {
+								moved = 1
+							}
+						}
+					}
+				}
+			}
+		}
+	}
+	x.setGap(j.GapMs)
+	return moved
 }
 
 // suffixes reads the persisted suffix keys through the cluster's own etcd.
@@ -539,6 +619,8 @@ func runCross(c XCase) (vkit.Info, error) {
 
 	id := 0
 	resigned := false
+	jumps := 0
+	defer x.setGap(0)
 	for si, st := range c.Steps {
 		if si == c.ResignAt && len(c.PDs) >= 2 {
 			old := x.cluster.GetLeader()
@@ -554,6 +636,10 @@ func runCross(c XCase) (vkit.Info, error) {
 			}
 			resigned = x.cluster.GetLeader() != old
 			info.ClassIf(resigned, "pd-leader-moved")
+		}
+		if st.Jump != nil {
+			jumps += x.jump(dcs, st.Jump)
+			continue
 		}
 		var wg sync.WaitGroup
 		globals := 0
@@ -594,6 +680,7 @@ func runCross(c XCase) (vkit.Info, error) {
 		okEv = append(okEv, e)
 	}
 	info.ClassIf(failed > 0, "some-requests-failed")
+	info.ClassIf(jumps > 0, "local-allocator-jumped-ahead")
 	if len(okEv)*2 < len(hist) || len(okEv) == 0 {
 		fmt.Printf("C05 cross: %d of %d requests failed, e.g. %v\n", failed, len(hist), firstErr(hist))
 		info.Inconclusive = true
